@@ -44,7 +44,10 @@ def generate(st):
         'ints': sw.random() < 0.15,
         'named': sw.random() < 0.25,
         'daily_obs': sw.random() < 0.8,
+        'stamp_offset': sw.choice([0, 0, 0, 0, 3600, 86400, 300 * 86400]),     # publishers may stamp ahead of the clock
     }
+    if cfg['stamp_offset']:
+        cfg['modes'] = ['explicit']
     if not cfg['faulty']:
         cfg['ticks'] = [t for t in cfg['ticks'] if t > 0] or [1]
     now = datetime.datetime.fromisoformat(cfg['origin'])
@@ -92,9 +95,18 @@ def generate(st):
             now = now + datetime.timedelta(seconds=d)
         elif r < 0.65:
             mode = g.choice(cfg['modes'])
-            ops.append({'op': 'publish', 'mode': mode, 'vals': version(), 'named': bool(cfg['named'] and g.random() < 0.5)})
-            stamps.append(now)
-            n_pub += 1
+            if g.random() < 0.15:
+                vs = [version() for _ in range(g.choice([2, 2, 3]))]
+                if g.random() < 0.5 and len(vs) == 2 and ops and stamps:
+                    pass
+                ops.append({'op': 'publish_many', 'versions': vs})
+                for _ in vs:
+                    stamps.append(now + datetime.timedelta(seconds=cfg['stamp_offset']))
+                    n_pub += 1
+            else:
+                ops.append({'op': 'publish', 'mode': mode, 'vals': version(), 'named': bool(cfg['named'] and g.random() < 0.5)})
+                stamps.append(now + datetime.timedelta(seconds=cfg['stamp_offset']))
+                n_pub += 1
             if g.random() < 0.5:
                 ops.append(read_op())
             # a zero tick between two publications is the clock_stall fault; otherwise time passes
@@ -294,11 +306,13 @@ def execute(trace, ctx=None):
                 vals = [(i, dec(v)) for i, v in op['vals'] if i < n]
                 if not vals:
                     continue
-                stamp = SimClock.now
+                stamp = SimClock.now + datetime.timedelta(seconds=cfg.get('stamp_offset', 0))
+                if cfg.get('stamp_offset'):
+                    res.probe('stamp-ahead-of-clock')
                 s = series(op['vals'] if all(i < n for i, _ in op['vals']) else [[i, v] for i, v in op['vals'] if i < n], op.get('named', False))
-                if op['mode'] == 'explicit' or store is None:
+                if op['mode'] == 'explicit' or store is None or cfg.get('stamp_offset'):
                     # the first version has to be stamped explicitly: bi_merge(None, plain) would stamp it too, exercise both
-                    if op['mode'] == 'implicit':
+                    if op['mode'] == 'implicit' and not cfg.get('stamp_offset'):
                         new_store = lib(lambda: bi_merge(None, s), 'bi_merge(None, series)')
                         res.probe('implicit-now-stamp')
                         msg = new_store
@@ -333,6 +347,28 @@ def execute(trace, ctx=None):
                 messages.append((msg, stamp, vals))
                 store = new_store
                 after_publication(stamp)
+                _check_store(store, model, k)
+            elif kind == 'publish_many':
+                stamp = SimClock.now + datetime.timedelta(seconds=cfg.get('stamp_offset', 0))
+                versions = []
+                for vs in op['versions']:
+                    vals = [(i, dec(v)) for i, v in vs if i < n]
+                    if vals:
+                        versions.append(([[i, v] for i, v in vs if i < n], vals))
+                if not versions:
+                    continue
+                bis = [lib(lambda raw=raw: Bi(series(raw), stamp), 'Bi(series, stamp)') for raw, _ in versions]
+                store = lib(lambda: bi_merge(store, bis), 'bi_merge(store, [versions])')
+                res.probe('several-versions-merged-in-one-call')
+                for (raw, vals), b in zip(versions, bis):
+                    for i, v in vals:
+                        if i in model.log and any(e[0] == stamp for e in model.log[i]):
+                            cur = model.read_last(stamp).get(i, NAN)
+                            if not _isnan(v) and not _isnan(cur) and float(v) != cur:
+                                res.probe('same-stamp-override')
+                    model.publish(stamp, vals)
+                    messages.append((b, stamp, vals))
+                    after_publication(stamp)
                 _check_store(store, model, k)
             elif kind == 'redeliver':
                 if not messages:
@@ -472,6 +508,12 @@ def shrink_candidates(trace):
                     t = copy.deepcopy(trace); t['ops'][k]['vals'][j][1] = {'f': '1.0'}; yield t
         if op['op'] == 'tick' and op['d'] not in (0, 1):
             t = copy.deepcopy(trace); t['ops'][k]['d'] = 1; yield t
+        if op['op'] == 'publish_many':
+            for j in range(len(op['versions'])):
+                t = copy.deepcopy(trace); del t['ops'][k]['versions'][j]; yield t
+            for j, vs in enumerate(op['versions']):
+                for q in range(len(vs)):
+                    t = copy.deepcopy(trace); del t['ops'][k]['versions'][j][q]; yield t
         if op['op'] == 'sweep' and k != len(trace['ops']) - 1:
             pass
 
@@ -479,6 +521,8 @@ def shrink_candidates(trace):
 def size(trace):
     s = len(trace['ops']) * 20 + trace['cfg']['n_dates']
     for op in trace['ops']:
+        if 'versions' in op:
+            s += sum(5 + 3 * len(vs) for vs in op['versions'])
         if 'vals' in op:
             s += 3 * len(op['vals']) + sum(1 for i, v in op['vals'] if v != {'f': '1.0'})
         if op.get('named'):
@@ -497,7 +541,7 @@ def signature(trace, violation):
 PROBES = ['same-stamp-publication', 'same-stamp-override', 'nan-does-not-override', 'revert-to-earlier-value',
           'date-first-published-later', 'store>=17-rows', 'implicit-now-stamp', 'read-strictly-between-stamps',
           'read-before-first-stamp', 'redelivery-of-version-in-store', 'redelivery-of-overridden-version',
-          'bump-stamp-capped-at-now', 'named-series']
+          'bump-stamp-capped-at-now', 'named-series', 'several-versions-merged-in-one-call', 'stamp-ahead-of-clock']
 TIERS = {'quick': {'runs': 4000, 'wallcap': 50}, 'thorough': {'runs': 150000, 'wallcap': 800}}
 COMPONENTS = {
     'real': ['pyg_base._bitemporal Bi / bi_merge / bi_read', 'pyg_base._dates.dt (stamp parsing, "now")', 'pandas concat/sort/groupby'],
